@@ -471,6 +471,11 @@ func (ex *Exec) recordFinding(id, kind, msg string, model map[string]*Term, know
 	}
 	f := &Finding{Property: h.Property, Harness: h.Name, AssertID: id, Kind: kind, Msg: msg, Known: known,
 		Inputs: ex.modelToInputs(model), Decisions: ex.decisionList()}
+	for i := 0; i < ex.pos && i < len(ex.decisions); i++ {
+		if t := ex.decisions[i].Tag; t == "sched" || t == "maporder" {
+			f.orderDependent = true
+		}
+	}
 	h.Findings[key] = f
 	h.Stats.Violated++
 }
